@@ -35,7 +35,7 @@ ObjComplaints(m, ob, involved, e) ==
   LET sbytes == RLBytes(ob.sb)
       nbuf == RLBytes(m.buf)
       hole == BeforeHole(m.buf)
-      P == IF involved /\ e.ev \notin {"clone", "take"} THEN "C03" ELSE "C20"
+      P == IF involved /\ e.ev \notin {"clone", "take", "clone_from"} THEN "C03" ELSE "C20"
       core ==
            When(ob.total # nbuf, {<<P, "total_size differs from appended minus consumed">>})
       \cup When((ob.len = 0) # (m.buf = << >>), {<<P, "len() = 0 does not coincide with an empty pipe">>})
@@ -70,7 +70,7 @@ ObjComplaints(m, ob, involved, e) ==
            THEN {<<"C20", "an operation on another object changed (or invalidated) this one">>} ELSE {})
      \cup (IF m.kin /\ c05 # {}
            THEN {<<"C20", "a clone / cloned original lost the memory behind its contents: " \o x[2]>> : x \in c05} ELSE {})
-     \cup (IF involved /\ e.ev \in {"clone", "take"} /\ (c04 \cup c05) # {}
+     \cup (IF involved /\ e.ev \in {"clone", "take", "clone_from"} /\ (c04 \cup c05) # {}
            THEN {<<"C20", "clone/take left an object in a wrong state: " \o x[2]>> : x \in c04 \cup c05} ELSE {})
 
 Observe(w2, e) ==
@@ -123,7 +123,7 @@ Step(e) ==
       \* whatever else it breaks
       [w |-> w, bad |-> {<<p, "panic on a valid operation sequence (" \o e.ev \o "): " \o e.panic>> :
                            p \in {"C03"} \cup (IF e.ev \in {"register", "backfill"} THEN {"C04"}
-                                               ELSE IF e.ev \in {"clone", "take"} THEN {"C20"} ELSE {})}]
+                                               ELSE IF e.ev \in {"clone", "take", "clone_from"} THEN {"C20"} ELSE {})}]
   ELSE IF e.err # "" THEN [w |-> w, bad |-> {<<"C03", "operation failed: " \o e.err>>}]
   ELSE IF ~(e.ev \in {"new", "from_slices", "held_op"}) /\ "o" \in DOMAIN e /\ e.skip = 0 /\ ~Live(w, e.o)
     THEN [w |-> w, bad |-> {<<"C03", "harness executed an operation on an object the model does not have">>}]
